@@ -332,6 +332,24 @@ func benign(quick bool) []cell {
 	lay("diamond", map[string]string{"top.thrift": "include \"./l.thrift\"\ninclude \"./r.thrift\"\nstruct T { 1: optional l.L a; 2: optional r.R b }",
 		"l.thrift": "include \"./s.thrift\"\nstruct L { 1: optional s.S s }", "r.thrift": "include \"./s.thrift\"\nstruct R { 1: optional list<s.S> s }", "s.thrift": "struct S { 1: optional i32 v }"}, "top.thrift", "")
 	lay("sibling-dirs", map[string]string{"p/q.thrift": "include \"../r/s.thrift\"\ntypedef s.T QT\nconst s.T QC = {\"v\": 1}", "r/s.thrift": "struct T { 1: optional i32 v }"}, "p/q.thrift", "")
+	// inheritance and type use along include chains the root does not include directly
+	lay("service-chain-3", map[string]string{"api/users.thrift": "include \"../base/meta.thrift\"\nservice Users extends meta.Meta { void u() }",
+		"base/meta.thrift": "include \"./core/health.thrift\"\nservice Meta extends health.Health { void m() }", "base/core/health.thrift": "service Health { void h() }"}, "api/users.thrift", "")
+	lay("service-chain-4", map[string]string{"a.thrift": "include \"./b.thrift\"\nservice A extends b.B { void a() }", "b.thrift": "include \"./c.thrift\"\nservice B extends c.C { void b() }",
+		"c.thrift": "include \"./d.thrift\"\nservice C extends d.D { void c() }\nstruct CS { 1: optional d.DS d }", "d.thrift": "service D { void d() }\nstruct DS { 1: optional i32 v }"}, "a.thrift", "")
+	lay("service-chain-3-two-children", map[string]string{"a.thrift": "include \"./b.thrift\"\nservice A1 extends b.B { void a() }\nservice A2 extends A1 { void a2() }\nservice A3 extends b.B2 { void a3() }",
+		"b.thrift": "include \"./c.thrift\"\nservice B extends c.C { void b() }\nservice B2 extends B { void b2() }", "c.thrift": "service C { void c() }"}, "a.thrift", "")
+	lay("type-chain-3", map[string]string{"a.thrift": "include \"./b.thrift\"\nstruct A { 1: optional b.B b; 2: optional b.TB t }", "b.thrift": "include \"./c.thrift\"\nstruct B { 1: optional c.C c }\ntypedef c.C TB\nconst c.C KB = {\"v\": 1}",
+		"c.thrift": "struct C { 1: optional i32 v }"}, "a.thrift", "")
+	// two spellings of one name in a file, kept apart with go.name, both used in every container position
+	for i, pair := range [][2]string{{"UserInfo", "user_info"}, {"fooBar", "foo_bar"}, {"HTTPServer", "http_server"}, {"Id", "ID"}} {
+		for k, kind := range []string{"struct %s { 1: optional i32 a }%s", "enum %s { A }%s", "typedef i64 %s%s"} {
+			a, b := pair[0], pair[1]
+			defs := fmt.Sprintf(kind+"\n"+kind+"\n", a, "", b, " (go.name = \"Second"+strings.ReplaceAll(a, "_", "")+"\")")
+			uses := fmt.Sprintf("struct Uses { 1: optional %s a; 2: optional %s b; 3: optional list<%s> la; 4: optional list<%s> lb; 5: optional map<string, %s> ma; 6: optional map<string, %s> mb; 7: optional set<%s> (go.type = \"slice\") sa; 8: optional set<%s> (go.type = \"slice\") sb }\n", a, b, a, b, a, b, a, b)
+			out = append(out, cell{Name: fmt.Sprintf("goname%d_%d", i, k), Class: "goname-disambiguated:" + a + "/" + b, Benign: true, Root: "t.thrift", Files: map[string]string{"t.thrift": defs + uses}})
+		}
+	}
 	out = append(out, cell{Name: "lay_cyclic_includes", Class: "layout:cyclic-includes", Benign: false, Root: "a.thrift",
 		Files: map[string]string{"a.thrift": "include \"./b.thrift\"\nstruct A { 1: optional b.B b }", "b.thrift": "include \"./a.thrift\"\nstruct B { 1: optional i32 v }"}})
 	return out
